@@ -270,3 +270,45 @@ def session_bad_initialize(exe):
     out["alive"] = c.p.poll() is None
     c.stop()
     return out
+
+
+def session_after_shutdown(exe):
+    """a request that arrives after `shutdown` (before `exit`) still gets exactly one response (LSP: InvalidRequest)"""
+    c = Client(exe)
+    root = "file://" + c.d
+    c.request(0, "initialize", {"processId": None, "rootUri": root, "capabilities": {}, "workspaceFolders": [{"uri": root, "name": "w"}]})
+    c.wait(0, 30)
+    c.notify("initialized", {})
+    time.sleep(1.0)
+    c.request(1, "textDocument/hover", HOVER)
+    c.wait(1, 60)
+    c.request(2, "shutdown", None)
+    c.wait(2, 20)
+    c.request(3, "textDocument/hover", HOVER)
+    c.request("s4", "workspace/symbol", {"query": "x"})
+    c.wait(3, 5)
+    c.wait("s4", 5)
+    time.sleep(0.3)
+    out = {str(i): len(c.responses(i)) for i in (0, 1, 2, 3, "s4")}
+    c.notify("exit", None)
+    time.sleep(0.3)
+    c.stop()
+    return out
+
+
+def session_before_initialized(exe):
+    """a request sent after the initialize response but before the `initialized` notification is answered, and the server lives on"""
+    c = Client(exe)
+    root = "file://" + c.d
+    c.request(0, "initialize", {"processId": None, "rootUri": root, "capabilities": {}, "workspaceFolders": [{"uri": root, "name": "w"}]})
+    c.wait(0, 30)
+    c.request(1, "textDocument/hover", HOVER)
+    c.wait(1, 5)
+    c.notify("initialized", {})
+    time.sleep(1.0)
+    c.request(2, "textDocument/hover", HOVER)
+    c.wait(2, 60)
+    time.sleep(0.3)
+    out = {str(i): len(c.responses(i)) for i in (0, 1, 2)}
+    c.stop()
+    return out
